@@ -227,6 +227,7 @@ func init() {
 			{ID: "R14.3", Title: "registration/assertion agreement: operands are asserted to the Go type of their registered type id", Floor: 70, Run: ruleR143},
 			{ID: "R14.4", Title: "one equality, one ordering: all consumers call the registered operator object; no Go == on values", Floor: 3, Run: ruleR144},
 			{ID: "R14.7", Title: "container equality compares sizes before it can report equal", Floor: 2, Run: ruleR147},
+			{ID: "R13.1", Title: "key-domain agreement of the map storages: map equality compares Size, Iter and Get (see C13)", Floor: 9, Run: ruleR131},
 			{ID: "R05.2", Title: "no use of a value before the error returned with it was compared with nil (see C05)", Floor: 20, Run: ruleR052},
 		},
 	})
@@ -242,6 +243,7 @@ func init() {
 			{ID: "R15.4", Title: "typographic aliases, superscripts and their exclusion sets equal the documented tables", Floor: 3, Run: ruleR154},
 			{ID: "R15.6", Title: "quoted identifiers denote their exact content (no keyword / text operator lookup)", Floor: 1, Run: ruleR156},
 			{ID: "R15.7", Title: "string literals and quoted identifiers are built from runes as written, not from the alias-replacing readers", Floor: 2, Run: ruleR157},
+			{ID: "R15.8", Title: "the image of a number or identifier consists of exactly the runes the matcher accepted (aliases in their ASCII form)", Floor: 1, Run: ruleR158},
 			{ID: "R03.6", Title: "implicit multiplication bookkeeping only in comfort mode (see C03)", Floor: 3, Run: ruleR036},
 		},
 	})
@@ -270,6 +272,7 @@ func init() {
 			{ID: "R17.2", Title: "separator typestate of list and map exporters; matching brackets", Floor: 2, Run: ruleR172},
 			{ID: "R17.3", Title: "non-constant text reaches the JSON buffer only through the escaper", Floor: 10, Run: ruleR173},
 			{ID: "R17.4", Title: "generic traversal: Close on every successful path behind Open; only present keys are exported", Floor: 3, Run: ruleR174},
+			{ID: "R07.2", Title: "stores into fields of a value receiver are not lost: exporter state survives Add (see C07)", Floor: 0, Run: ruleR072},
 			{ID: "R13.1", Title: "key-domain agreement of the map storages (see C13)", Floor: 9, Run: ruleR131},
 		},
 	})
@@ -285,6 +288,7 @@ func init() {
 			{ID: "R18.4", Title: "elements are balanced: every function changes the depth by exactly its role on non-failing paths", Floor: 15, Run: ruleR184},
 			{ID: "R18.5", Title: "ToHtml recovers panics into its error result", Floor: 1, Run: ruleR185},
 			{ID: "R18.6", Title: "the XML name validator accepts only XML name characters (value-set analysis of its condition over all code points)", Floor: 1, Run: ruleR186},
+			{ID: "R07.2", Title: "stores into fields of a value receiver are not lost: exporter state survives Add (see C07)", Floor: 0, Run: ruleR072},
 			{ID: "R05.10", Title: "a recovered panic is reported on every path: a result the caller sees is set (see C05)", Floor: 8, Run: ruleR0510},
 		},
 	})
